@@ -121,14 +121,15 @@ theorem ntog_quant0 (s : TC) (now : ℚ) (q p : Num) (ref : Option Num) (hq : q.
     have : q = 0 := by simpa [Num.val] using hq
     subst this; simp [next_time_on_grid_D, next_time_on_grid_FFN, refBeat, Num.val]
 
-/-- `play(task, quant)` wakes the task at the second of the grid beat: converting the wake-up
-    time back gives exactly `next_time_on_grid(quant, phase)` at the moment of the call. -/
-theorem play_quant_schedules_there (st : St) (q p : Num) (g : ℚ) (hw : WF st.tc)
+/-- `play(task, quant)` schedules the task at the beat `next_time_on_grid(quant, phase)` returns at the
+    moment of the call; whatever proper beat↔second map is in force when the task is woken (it keeps
+    its beat through later tempo / beats changes), the second it is woken at converts back to exactly
+    that beat. -/
+theorem play_quant_schedules_there (st : St) (q p : Num) (g : ℚ)
     (h : next_time_on_grid_D st.tc st.now q p none = .ok g) :
-    (step st (.qPlayAt q p)).2 = .val (beats2secs_F st.tc g) ∧
-    secs2beats_F st.tc (beats2secs_F st.tc g) = g := by
-  refine ⟨?_, secs_beats st.tc hw g⟩
-  simp only [step, h]
+    (step st (.qPlayAt q p)).2 = .val g ∧ (step st (.qPlayAt q p)).1 = st ∧
+    ∀ s' : TC, WF s' → secs2beats_F s' (beats2secs_F s' g) = g := by
+  refine ⟨?_, ?_, fun s' hw => secs_beats s' hw g⟩ <;> simp only [step, h]
 
 /-! ## bars -/
 
@@ -245,9 +246,10 @@ theorem wait_resumes_after_delta (st : St) (d : ℚ) (h : WF st.tc) :
     let st' := (step st (.wait d)).1
     st'.beat = st.wakeBeat + d ∧ st'.wakeBeat = st'.beat ∧ st'.tc = st.tc ∧
     st'.beat - st.beat = st.tc.tempo * (st'.now - st.now) := by
-  refine ⟨?_, ?_, ?_, ?_⟩
-  · simp only [step, St.beat, beats]; exact secs_beats st.tc h _
-  · simp only [step, St.beat, beats]
+  have e : (step st (.wait d)).1.beat = st.wakeBeat + d := by
+    simp only [step, St.beat, beats]; exact secs_beats st.tc h _
+  refine ⟨e, ?_, ?_, ?_⟩
+  · rw [e]; simp only [step]
   · simp only [step]
   · simp only [step, St.beat, beats, secs2beats_F]; ring
 
